@@ -87,6 +87,11 @@ impl FilterBodyAction {
         self.chain.is_empty()
     }
 
+    #[cfg(feature = "verif-hooks")]
+    pub fn verif_in_error(&self) -> bool {
+        self.in_error
+    }
+
     pub fn filter(&mut self, data: Vec<u8>, unit_trace: Option<&mut UnitTrace>) -> Vec<u8> {
         if self.in_error {
             return data;
